@@ -115,9 +115,9 @@ CLAIMS = {
        "all coordinate systems via the C01 refinement of the boosts. boost()/boostCM_of() dispatch: glue model + symbolic correspondence. METHOD LEVEL (Props/MethodLorentz.lean, 86 theorems): 4D accessors, boostX/Y/Z (beta/gamma), boost_p4, boost_beta3, boost, boostCM_of*, to_beta3 and the causal predicates as PUBLIC CALLS (glue model on the regenerated real layer) in every storage: denotation, result type, Minkowski product preserved across any two storages, guards.",
   note=TB, technique="Lean 4 proofs (linear_combination certificates) over translator-generated model"),
  "C10": dict(category="proof", design="4/C10",
-  text="78 Lean theorems on the generated rotation functions for all reals: axis rotations are the active right-handed matrices; all 12 Euler orders equal the documented product "
+  text="87 Lean theorems on the generated rotation functions for all reals: axis rotations are the active right-handed matrices; all 12 Euler orders equal the documented product "
        "of three axis rotations (one uniform rule); preservation of dot and cross products, additivity, inverses; rotate_axis about e_i = rotateX/Y/Z and independent of the axis length; "
-       "quaternion(cos a/2, n sin a/2) = rotate_axis(n,a); every key via C01. rotate_nautical / case-insensitive order / 2D and 4D use: glue model + symbolic correspondence.",
+       "quaternion(cos a/2, n sin a/2) = rotate_axis(n,a); GROUP STRUCTURE of rotate_quaternion (Props/C10Quat.lean): two successive calls are one call with the Hamilton product for ALL quaternions, the norm is multiplicative, (1,0,0,0) is the identity, the conjugate of a unit quaternion undoes it (factor |q|^4 in general), the scalar triple product is preserved (proper rotation, det +1), the vector part is a fixed axis; every key via C01. rotate_nautical / case-insensitive order / 2D and 4D use: glue model + symbolic correspondence.",
   note=TB, technique="Lean 4 proofs (ring identities) over translator-generated model"),
  "C12": dict(category="proof", design="4/C12",
   text="Lean 4 theorems over the regenerated model: for ALL 4/36/144 coordinate-system key pairs and all reals, != <-> not ==, == reflexive/symmetric, same-system == and isclose "
